@@ -1,46 +1,24 @@
 (* Runs of the generated skeletons and the enumerations used by the finite-domain theorems. *)
 From PW Require Import Child.Sem Gen.Skel.
 
-Definition prog (k : kind) : stm := match k with KThread => sk_thread_run | KProcess => sk_process_run end.
+Definition prog (k : kind) : stm := match k with KThread => sk_thread_run | KProcess => sk_process_run | KRemote => sk_remote_backend end.
 Definition pcleanup (k : kind) (persistent : bool) : option stm :=
-  if persistent then Some (match k with KThread => sk_pthread_cleanup | KProcess => sk_pprocess_cleanup end) else None.
+  if persistent then Some (match k with KThread => sk_pthread_cleanup | KProcess => sk_pprocess_cleanup | KRemote => sk_premote_cleanup end) else None.
 
 Definition run (k : kind) (persistent : bool) (t : target) (injs : list (nat * action)) : completion * cs :=
-  exec t 200 (prog k) (init_cs injs (pcleanup k persistent)).
+  exec t 300 (prog k) (init_cs injs (pcleanup k persistent)).
 
-(* number of statement boundaries passed before the effect [x] of the straight-line prefix is executed *)
-Definition is_marker (e x : eff) : bool :=
-  match e, x with StartupDone, StartupDone | SendInfo, SendInfo => true | _, _ => false end.
-
-Fixpoint count_flat (x : eff) (l : list stm) (n : nat) : nat :=
-  match l with
-  | [] => n
-  | Eff e :: r => if is_marker e x then S n else count_flat x r (S n)
-  | IfC _ (Seq a) _ :: r => count_flat x r (S n + length a)
-  | _ :: r => count_flat x r (S n)
-  end.
-
-Fixpoint count_until (x : eff) (l : list stm) (n : nat) : nat :=
-  match l with
-  | [] => n
-  | Eff e :: r => if is_marker e x then S n else count_until x r (S n)
-  | IfC _ (Seq a) _ :: r => count_until x r (S n + length a)
-  | Try (Seq b) _ _ :: _ => count_flat x b (S n)
-  | _ :: r => count_until x r (S n)
-  end.
-
-(* first landing point after construction is complete: after _startup_sync.set() / after the runtime info was sent *)
+(* first landing point after construction is complete: the number of statement boundaries passed when the child has
+   announced itself (_startup_sync.set() / the runtime info sent) - recorded by the semantics itself (ghost field [mark]) *)
 Definition start_point (k : kind) : nat :=
-  match prog k with
-  | Seq l => count_until (match k with KThread => StartupDone | KProcess => SendInfo end) l 0
-  | _ => 0
-  end.
+  match mark (snd (run k false TReturn [])) with Some m => m | None => 0 end.
 
 Definition obs_eqb (a b : obs) : bool :=
   match a, b with
   | OOk, OOk | OUndef, OUndef | ORaises, ORaises | OAlive, OAlive => true
   | OErr None, OErr None => true
-  | OErr (Some EOwn), OErr (Some EOwn) | OErr (Some EBaseOwn), OErr (Some EBaseOwn) | OErr (Some EWTE), OErr (Some EWTE) => true
+  | OErr (Some EOwn), OErr (Some EOwn) | OErr (Some EBaseOwn), OErr (Some EBaseOwn) | OErr (Some EWTE), OErr (Some EWTE)
+  | OErr (Some EOther), OErr (Some EOther) => true
   | _, _ => false
   end.
 
@@ -49,11 +27,13 @@ Definition own (k : kind) (t : target) : obs :=
   match t with
   | TReturn => OOk
   | TRaise => OErr (Some EOwn)
-  | TRaiseBase => match k with KThread => OErr (Some EBaseOwn) | KProcess => OErr None end
+  | TRaiseBase => match k with KThread => OErr (Some EBaseOwn) | KProcess | KRemote => OErr None end
   | TLoop => OAlive
   end.
 
-Definition kinds := [KThread; KProcess].
+Definition kinds := [KThread; KProcess].        (* the kinds of the two-event theorem; KRemote has its own (Child/ProofsRemote.v) *)
+Definition kinds3 := [KThread; KProcess; KRemote].
 Definition targets := [TReturn; TRaise; TRaiseBase; TLoop].
+(* the raw events; a graceful terminate request (ATerm) is an AWTE at the same boundary or nothing at all *)
 Definition actions := [AWTE; AKill; AKillMidSend].
 Definition bools := [true; false].
